@@ -17,24 +17,38 @@
    exactly what the account derives, each under its true key.  [c05_views_sound]: for EVERY account of U (member or
    not) the view never fails, stores only true keys of existing generations, and only generations the account derives.
 
-   NOT proved ([..._partial] below states what is): [forall h, honest_run .. h = true -> spec_C05 .. (model_steps .. h) = true].
-   The predicate was REPAIRED for it: as first written ([spec_C05_legacy]) it judged "allowed generations" at RECORD
-   boundaries only (it sees permissions only after each record) while the theorems speak about CONTENT boundaries; an
-   accepted record that admits an account and removes it again (AccountsAdd; AccountRemove with rotation) delivers the
-   then-current key to an account that holds no permission at any record boundary, and the legacy predicate answered
-   false on the model's own output although nothing in C05 is violated — a check must not demand more than the property
-   ([c05_model_satisfies_spec_legacy_refuted]).  [spec_step] now also allows every identity admitted by a content of
-   the accepted record ([admits]) the generations that exist AT THAT CONTENT ([admit_allow]: the generations before the
-   record, plus the record's own generation once its rotation content has been passed — so the account of the example
-   may keep generation 1 and may NOT know generation 2 introduced by its removal);
-   [c05_model_satisfies_spec_admit_remove_instance].  What the general theorem still needs (gap): invariants not yet in
-   [KInv] — secrecy for invite principals ([PI k]), "a live open invite leads to the current key", general completeness
-   of the executable [derives] for non-members (the predicate compares with [derives]), and the [rot_exact] clause over
-   observed member lists.  Proved: the tree parts ([c05_tree_model_satisfies_spec], [c05_open_model_satisfies_spec]);
-   computed instances: [c05_model_satisfies_spec_instance], [c05_model_satisfies_spec_admit_remove_instance]. *)
+   THE MODEL SATISFIES THE PREDICATE — [c05_model_satisfies_spec] (Proofs/AclKeysSecrecy.v):
+     forall owner root U h, covers U owner h = true -> honest_run (kinit owner root U) h = true ->
+       spec_C05 owner root (model_steps (kinit owner root U) U h) = true.
+   [covers]: the universe of OBSERVED accounts contains the owner and every identity a content of the history admits
+   (the predicate computes the member list from the observations; with an unobserved member the [rot_exact] clause is
+   false on the model's own output, [c05_model_satisfies_spec_uncovered_refuted] — the harness observes every account).
+   The predicate had to be repaired twice for it (a check must not demand more than the property):
+   * first version ([spec_C05_legacy]): "allowed generations" judged at RECORD boundaries only; an accepted record that
+     admits an account and removes it again delivers the then-current key to an account that holds no permission at any
+     record boundary — false on the model's own output although nothing in C05 is violated
+     ([c05_model_satisfies_spec_legacy_refuted]);
+   * second version ([spec_C05_v2]): content boundaries for ADMITTED identities only.  Still too strict for a principal
+     that receives the NEW key of a rotation and is dropped by a LATER content of the same record: a rotation recipient
+     that a later PermissionChange sets to None; an open invite that is named in InviteKeys and revoked later in the
+     record; an invite that is created and revoked inside one record with a key that was seen before
+     ([c05_model_satisfies_spec_v2_refuted], three witnesses).  In all of them the principal held its position at the
+     content boundary at which the generation appeared, which is what theorems (2) speak about.
+   * [spec_C05] now gives every key RECEIVER of a content ([key_receivers]: admitted identities + the AccountKeys of a
+     rotation minus the accounts that content removes; [inv_receivers]: a new open invite's key + the InviteKeys of a
+     rotation) the generations that exist AT THAT CONTENT ([admit_allow]).  Each repair only enlarges allowed sets:
+     [c05_spec_legacy_implies_v2], [c05_spec_v2_implies_spec], [c05_model_satisfies_spec_partial]; an observation that
+     leaks the generation introduced by a removal to the removed account is still refused
+     ([c05_model_satisfies_spec_admit_remove_instance]).
+   Invariants behind the theorem: [KInvX] = [KInv] + secrecy for invite-key principals + "a live open invite leads to
+   the current key" ([c05_invite_derive_only_if_live], [c05_revoked_invite_cannot_derive],
+   [c05_open_invite_leads_to_current]); the clauses of the predicate on a model state:
+   [c05_model_satisfies_spec_acct], [c05_model_satisfies_spec_invite_secrecy], [c05_model_satisfies_spec_open_invite],
+   [c05_model_satisfies_spec_rot_exact].  Completeness of the executable [derives] for non-members turned out not to be
+   needed: the predicate uses [derives] of a non-member only on the left of an inclusion (soundness suffices). *)
 From Coq Require Import List NArith Bool.
 Import ListNotations.
-From AnySync Require Import Model.Acl Model.AclKeys Proofs.AclKeysBase Proofs.AclKeysStep Proofs.AclKeysInv Proofs.AclKeysView Model.AclKeysTree Proofs.AclKeysTree Proofs.AclKeysSpec.
+From AnySync Require Import Model.Acl Model.AclKeys Proofs.AclKeysBase Proofs.AclKeysStep Proofs.AclKeysInv Proofs.AclKeysView Model.AclKeysTree Proofs.AclKeysTree Proofs.AclKeysSpec Proofs.AclKeysSecrecy.
 Open Scope N_scope.
 
 (* every honest history reaches a state satisfying the key invariant *)
@@ -179,18 +193,8 @@ Proof. vm_compute. repeat split. Qed.
    corpus/C05/basic.jsonl (line 3) and in known_findings.json, and [c05_nonvacuous] above shows that record 6 of the
    same history is now refused. *)
 
-(* spec_C05 on the model's own outputs for the concrete history (observations = what the model predicts) *)
-Definition model_obs (ms : mstate) (U : list acct) : list aobs :=
-  map (fun a => let v := match mget a (m_views ms) with Some v => v | None => None end in
-                mkAobs a (perm_of (m_s ms) a) (ids_of v) (ids_of v) (right_of v)) U.
-Fixpoint model_steps (ms : mstate) (U : list acct) (h : list hrec) : list step :=
-  match h with
-  | [] => []
-  | x :: rest =>
-      let res := krecord_step false ms (fst (fst x)) (snd (fst x)) (snd x) in
-      mkStep (fst (fst x)) (snd (fst x)) (snd x) (snd res) (cur_key (m_s (fst res))) (open_invites (m_s (fst res)))
-             (model_obs (fst res) U) :: model_steps (fst res) U rest
-  end.
+(* spec_C05 on the model's own outputs for the concrete history (observations = what the model predicts:
+   [model_steps] / [model_obs], Proofs/AclKeysSecrecy.v) *)
 Example c05_model_satisfies_spec_instance :
   let steps := model_steps (kinit 1 1 [1; 2; 3; 4]) [1; 2; 3; 4] (ex_hist ++ ex_readd) in
   spec_C05 1 1 steps = true /\ run_matches false (kinit 1 1 [1; 2; 3; 4]) steps = true.
@@ -220,16 +224,163 @@ Example c05_model_satisfies_spec_admit_remove_instance :
   spec_C05 1 1 steps = true /\ spec_C05 1 1 (map ex_leak_obs steps) = false.
 Proof. vm_compute. split; reflexivity. Qed.
 
-(* PARTIAL.  Full statement (not proved, see the header for the gap):
-     forall owner root U h, honest_run (kinit owner root U) h = true ->
-       spec_C05 owner root (model_steps (kinit owner root U) U h) = true.
-   Proved part: the repaired predicate is implied by the legacy one on every step (it only ENLARGES the allowed sets,
-   by [admit_allow]), so everything the legacy predicate accepted — every observed history of every run so far — is
-   still accepted. *)
+(* ------------------------------------------------------------------------------------------ the model satisfies spec_C05 *)
+(* each repair of the predicate only ENLARGES the allowed sets: whatever an earlier version accepted — every observed
+   history of every run so far — is still accepted *)
 Theorem c05_model_satisfies_spec_partial : forall owner root steps,
   spec_C05_legacy owner root steps = true -> spec_C05 owner root steps = true.
 Proof. exact spec_legacy_implies_spec. Qed.
 Print Assumptions c05_model_satisfies_spec_partial.
+Theorem c05_spec_legacy_implies_v2 : forall owner root steps,
+  spec_C05_legacy owner root steps = true -> spec_C05_v2 owner root steps = true.
+Proof. exact spec_legacy_implies_v2. Qed.
+Print Assumptions c05_spec_legacy_implies_v2.
+Theorem c05_spec_v2_implies_spec : forall owner root steps,
+  spec_C05_v2 owner root steps = true -> spec_C05 owner root steps = true.
+Proof. exact spec_v2_implies_spec. Qed.
+Print Assumptions c05_spec_v2_implies_spec.
+
+(* the second version (content boundaries for admitted identities only) was still stricter than the property: the
+   model's own output on an accepted honest history was refused although the principal held its position at the content
+   boundary at which the generation appeared.  (a) account 2 is a recipient of the rotation of record 3 and a LATER
+   content of the same record sets it to None; (b) the open invite (key 50) is named in InviteKeys of the rotation and
+   revoked by a later content of the same record; (c) invite key 50 was live earlier, and is used again for an invite
+   that is created and revoked inside one record, after a rotation.  [spec_C05] accepts all three. *)
+Definition ex_v2_a : list hrec := [
+  (1, 2, [(CAccountsAdd [(2, 3)], KDeliver [Some 1])]);
+  (1, 3, [(CReadKeyChange (mkRk true true [1; 2] []), KRot [Some 3; Some 3] [] (Some 1)); (CPermChange 2 0, KNone)])].
+Definition ex_v2_b : list hrec := [
+  (1, 2, [(CInvite 50 1 4 true, KDeliver [Some 1])]);
+  (1, 3, [(CReadKeyChange (mkRk true true [1] [50]), KRot [Some 3] [Some 3] (Some 1)); (CInviteRevoke 2, KNone)])].
+Definition ex_v2_c : list hrec := [
+  (1, 2, [(CInvite 50 1 4 true, KDeliver [Some 1])]);
+  (1, 3, [(CInviteRevoke 2, KNone)]);
+  (1, 4, [(CReadKeyChange (mkRk true true [1] []), KRot [Some 4] [] (Some 1))]);
+  (1, 5, [(CInvite 50 1 4 true, KDeliver [Some 4]); (CInviteRevoke 5, KNone)])].
+Example c05_model_satisfies_spec_v2_refuted :
+  forall h, In h [ex_v2_a; ex_v2_b; ex_v2_c] ->
+    honest_run (kinit 1 1 [1; 2]) h = true /\ covers [1; 2] 1 h = true /\
+    let steps := model_steps (kinit 1 1 [1; 2]) [1; 2] h in
+    forallb st_ok steps = true /\ run_matches false (kinit 1 1 [1; 2]) steps = true /\
+    spec_C05_v2 1 1 steps = false /\ spec_C05 1 1 steps = true.
+Proof. intros h [<-|[<-|[<-|[]]]]; vm_compute; repeat split; reflexivity. Qed.
+
+(* the repair is not a blank cheque for whoever a rotation names: the removed account is NOT a receiver of the rotation
+   that removes it.  Observed record 3 = [Empty; AccountRemove [2] + rotation] (the Empty content keeps the rotation out
+   of [rot_exact]'s reach, so only the secrecy clause judges); if its AccountKeys also carry the new key for the removed
+   account 2, the predicate answers false *)
+Definition ex_rm : list hrec := [
+  (1, 2, [(CAccountsAdd [(2, 3)], KDeliver [Some 1])]);
+  (1, 3, [(CEmpty, KNone); (CAccountRemove [2] (Some (mkRk true true [1] [])), KRot [Some 3] [] (Some 1))])].
+Definition ex_rm_leak (st : step) : step :=
+  if st_id st =? 3
+  then mkStep (st_author st) (st_id st)
+              [(CEmpty, KNone); (CAccountRemove [2] (Some (mkRk true true [1; 2] [])), KRot [Some 3; Some 3] [] (Some 1))]
+              (st_ok st) (st_cur st) (st_open st) (st_obs st)
+  else st.
+Example c05_spec_refuses_key_for_removed_account :
+  honest_run (kinit 1 1 [1; 2]) ex_rm = true /\ covers [1; 2] 1 ex_rm = true /\
+  let steps := model_steps (kinit 1 1 [1; 2]) [1; 2] ex_rm in
+  spec_C05 1 1 steps = true /\ spec_C05 1 1 (map ex_rm_leak steps) = false.
+Proof. vm_compute. repeat split; reflexivity. Qed.
+
+(* without [covers] the statement is false: the predicate computes the member list from the observed accounts, and a
+   rotation names the unobserved member (here: the owner) *)
+Definition ex_uncovered : list hrec :=
+  [(1, 2, [(CEmpty, KNone)]); (1, 3, [(CReadKeyChange (mkRk true true [1] []), KRot [Some 3] [] (Some 1))])].
+Example c05_model_satisfies_spec_uncovered_refuted :
+  honest_run (kinit 1 1 [2]) ex_uncovered = true /\ covers [2] 1 ex_uncovered = false /\
+  spec_C05 1 1 (model_steps (kinit 1 1 [2]) [2] ex_uncovered) = false /\
+  covers [1; 2] 1 ex_uncovered = true /\ spec_C05 1 1 (model_steps (kinit 1 1 [1; 2]) [1; 2] ex_uncovered) = true.
+Proof. vm_compute. repeat split; reflexivity. Qed.
+
+(* THE THEOREM.  For every honest history over a universe of observed accounts that contains the owner and every
+   identity the history admits, the property predicate is true on what the model presents. *)
+Theorem c05_model_satisfies_spec : forall owner root U h,
+  covers U owner h = true ->
+  honest_run (kinit owner root U) h = true ->
+  spec_C05 owner root (model_steps (kinit owner root U) U h) = true.
+Proof. exact model_satisfies_spec. Qed.
+Print Assumptions c05_model_satisfies_spec.
+
+Example c05_model_satisfies_spec_nonvacuous :
+  covers [1; 2; 3; 4] 1 (ex_hist ++ ex_readd) = true /\ honest_run (kinit 1 1 [1; 2; 3; 4]) (ex_hist ++ ex_readd) = true /\
+  map st_ok (model_steps (kinit 1 1 [1; 2; 3; 4]) [1; 2; 3; 4] (ex_hist ++ ex_readd)) = [true; true; true; true; false; true].
+Proof. vm_compute. repeat split; reflexivity. Qed.
+
+(* the clauses of the predicate, on any model state satisfying the invariants ([allow] / [allow_inv]: any maps that
+   contain, per principal, the generations of every trace state in which it held its position) *)
+Theorem c05_model_satisfies_spec_acct : forall ms tr allow a,
+  KInvX (m_s ms) (m_log ms) tr -> VInv ms -> In a (map fst (m_views ms)) ->
+  (forall st b, In st tr -> perm_of st b <> 0 -> incl (keychanges st) (aget b allow)) ->
+  acct_ok (keychanges (m_s ms)) (m_log ms) allow (obs_of ms a) = true.
+Proof. exact acct_ok_model. Qed.
+Print Assumptions c05_model_satisfies_spec_acct.
+Theorem c05_model_satisfies_spec_invite_secrecy : forall s L tr allow_inv k,
+  KInvX s L tr ->
+  (forall st k, In st tr -> In k (active_invite_keys st) -> incl (keychanges st) (aget k allow_inv)) ->
+  subsetN (derives (PI k) L) (aget k allow_inv) = true.
+Proof. exact inv_secrecy_model. Qed.
+Print Assumptions c05_model_satisfies_spec_invite_secrecy.
+Theorem c05_model_satisfies_spec_open_invite : forall s L tr k, KInvX s L tr -> In k (map snd (open_invites s)) ->
+  memN (cur_key s) (derives (PI k) L) = true.
+Proof. exact open_leads_model. Qed.
+Print Assumptions c05_model_satisfies_spec_open_invite.
+(* rot_exact: from a state whose permission holders are [members_before], over the contents of any accepted record *)
+Theorem c05_model_satisfies_spec_rot_exact : forall au r s0 members_before cks s s_fin revoked,
+  acontents s au r cks = Some s_fin ->
+  skeys (accounts s) ->
+  (forall a, In a members_before <-> perm_of s a <> 0) ->
+  (forall r0 iv, In (r0, iv) (invites s) <-> In (r0, iv) (invites s0) /\ ~ In r0 revoked) ->
+  rot_exact members_before (open_invites s0) revoked cks = true.
+Proof. exact rot_exact_ok. Qed.
+Print Assumptions c05_model_satisfies_spec_rot_exact.
+
+(* every honest history reaches a state satisfying the extended invariant *)
+Theorem c05_reach_ext : forall owner root U h,
+  honest_run (kinit owner root U) h = true ->
+  KInvX (m_s (run_hist (kinit owner root U) h)) (m_log (run_hist (kinit owner root U) h))
+        (init_state 0 owner root None :: trace (kinit owner root U) h).
+Proof. exact reachX_hist. Qed.
+Print Assumptions c05_reach_ext.
+
+(* (2') secrecy for invite keys: an invite key derives a generation only if an anyone-can-join invite with that key was
+   live at a moment (content boundary) at which that generation existed; hence the key of a revoked invite derives
+   nothing introduced after the revocation (unless an invite with the same key is created again) *)
+Theorem c05_invite_derive_only_if_live : forall owner root U h k g,
+  honest_run (kinit owner root U) h = true ->
+  let ms := run_hist (kinit owner root U) h in
+  Derives (PI k) (m_log ms) g ->
+  exists st, In st (init_state 0 owner root None :: trace (kinit owner root U) h) /\
+             In k (active_invite_keys st) /\ In g (keychanges st).
+Proof. exact invite_derive_only_if_live_hist. Qed.
+Print Assumptions c05_invite_derive_only_if_live.
+Theorem c05_revoked_invite_cannot_derive : forall owner root U h k g,
+  honest_run (kinit owner root U) h = true ->
+  let ms := run_hist (kinit owner root U) h in
+  (forall st, In st (init_state 0 owner root None :: trace (kinit owner root U) h) -> In g (keychanges st) ->
+              ~ In k (active_invite_keys st)) ->
+  ~ Derives (PI k) (m_log ms) g /\ ~ In g (derives (PI k) (m_log ms)).
+Proof. exact revoked_invite_cannot_derive. Qed.
+Print Assumptions c05_revoked_invite_cannot_derive.
+(* (1') a live anyone-can-join invite leads to the current key *)
+Theorem c05_open_invite_leads_to_current : forall owner root U h k,
+  honest_run (kinit owner root U) h = true ->
+  let ms := run_hist (kinit owner root U) h in
+  In k (active_invite_keys (m_s ms)) ->
+  In (cur_key (m_s ms)) (derives (PI k) (m_log ms)) /\ Derives (PI k) (m_log ms) (cur_key (m_s ms)).
+Proof. exact open_invite_leads_to_current. Qed.
+Print Assumptions c05_open_invite_leads_to_current.
+(* the open invite of [ex_hist] (key 50) holds generation 1 and the rotation's generation 5; the key of the revoked
+   invite of [ex_v2_b] keeps generation 3 (it was live when 3 appeared) and a later rotation gives it nothing *)
+Example c05_invite_nonvacuous :
+  (let ms := run_hist (kinit 1 1 [1; 2; 3; 4]) ex_hist in
+   active_invite_keys (m_s ms) = [50] /\ cur_key (m_s ms) = 5 /\ derives (PI 50) (m_log ms) = [1; 5]) /\
+  (let h := ex_v2_b ++ [(1, 4, [(CReadKeyChange (mkRk true true [1] []), KRot [Some 4] [] (Some 3))])] in
+   let ms := run_hist (kinit 1 1 [1; 2]) h in
+   honest_run (kinit 1 1 [1; 2]) h = true /\ active_invite_keys (m_s ms) = [] /\ keychanges (m_s ms) = [1; 3; 4] /\
+   derives (PI 50) (m_log ms) = [1; 3]).
+Proof. vm_compute. repeat split; reflexivity. Qed.
 
 (* (5) long-lived OPEN trees across a membership history (Model/AclKeysTree.v; the symbolic model has no per-tree key
    cache: a change written under the ACL's current generation g is SEnc (treeKey (K g)) data labelled g) *)
